@@ -14,15 +14,15 @@ import (
 
 // Config tunes the generator. The zero value is usable (see defaults in Gen).
 type Config struct {
-	MaxElems       int  // container size bound (default 4)
-	Budget         int  // node budget per value (default 400); when used up containers are empty, optionals unset
-	DupSets        bool // sets may repeat an element (generated Write refuses them under validate_set)
-	NilElems       bool // nil struct pointers / nil []byte inside containers (not representable with value_type_in_container)
-	NaNKeys        bool // NaN as map key / set element
-	NoNilRequired  bool // never leave a non-optional struct field nil when the target has required fields
-	UnionAnyCount  bool // unions with 0 or ≥2 members set (default: exactly one)
-	NilUnions      bool // leave non-optional union-typed fields nil (the generated Write panics on them, see BATCH-notes)
-	EnumOutOfRange bool // enum values outside int32
+	MaxElems       int          // container size bound (default 4)
+	Budget         int          // node budget per value (default 400); when used up containers are empty, optionals unset
+	DupSets        bool         // sets may repeat an element (generated Write refuses them under validate_set)
+	NilElems       bool         // nil struct pointers / nil []byte inside containers (not representable with value_type_in_container)
+	NaNKeys        bool         // NaN as map key / set element
+	NoNilRequired  bool         // never leave a non-optional struct field nil when the target has required fields
+	UnionAnyCount  bool         // unions with 0 or ≥2 members set (default: exactly one)
+	NilUnions      bool         // leave non-optional union-typed fields nil (the generated Write panics on them, see BATCH-notes)
+	EnumOutOfRange bool         // enum values outside int32
 	Count          func(string) // distribution sink (vl.Out.Count), may be nil
 }
 
@@ -205,7 +205,9 @@ var byteStrings = [][]byte{
 	[]byte("line\nbreak\ttab\"quote\\"), {0xed, 0xa0, 0x80},
 }
 
-func isNaN(bits uint64) bool { return bits&0x7ff0000000000000 == 0x7ff0000000000000 && bits&0x000fffffffffffff != 0 }
+func isNaN(bits uint64) bool {
+	return bits&0x7ff0000000000000 == 0x7ff0000000000000 && bits&0x000fffffffffffff != 0
+}
 
 // value generates a value for a non-pointer slot of type t (container element, map key, or the payload of a
 // field). inKey: the value is a map key or set element (Go equality matters).
